@@ -8,6 +8,7 @@ import (
 	"fmt"
 	"io"
 	"os"
+	"runtime/debug"
 	"strings"
 
 	appsTypes "github.com/pokt-network/pocket-core/x/apps/types"
@@ -99,7 +100,14 @@ func (e *Executor) offchain(op MidOp) {
 	func() {
 		defer func() {
 			if r := recover(); r != nil {
-				res.Err = fmt.Sprintf("panic: %v", r)
+				st := string(debug.Stack())
+				if i := strings.Index(st, "panic("); i >= 0 {
+					st = st[i:]
+				}
+				if len(st) > 900 {
+					st = st[:900]
+				}
+				res.Err = fmt.Sprintf("panic: %v | %s", r, st)
 			}
 		}()
 		switch op.Kind {
